@@ -112,7 +112,20 @@ def mutants_of(path: Path, rel: str, enums: dict):
             if isinstance(tg, (ast.Attribute, ast.Subscript)):
                 add("DEL_STORE", n, "pass")
         if isinstance(n, ast.Return) and n.value is not None and not (isinstance(n.value, ast.Constant) and n.value.value is None):
-            pass  # changing return values mostly breaks typing-level tests at once: skipped
+            add("RETURN_NONE", n, "return None")
+        # two adjacent simple statements exchanged (ordering is what many of the properties are about)
+        for fld in ("body", "orelse", "finalbody"):
+            blk = getattr(n, fld, None)
+            if isinstance(blk, list):
+                for s1, s2 in zip(blk, blk[1:]):
+                    simple = (ast.Expr, ast.Assign, ast.AugAssign, ast.AnnAssign)
+                    if isinstance(s1, simple) and isinstance(s2, simple) and not in_skipped(s1) and not in_skipped(s2) \
+                            and not (isinstance(s1, ast.Expr) and isinstance(s1.value, ast.Constant)) \
+                            and not any(ast.unparse(x.value.func).split(".")[0] in ("logger", "logging") for x in (s1, s2) if isinstance(x, ast.Expr) and isinstance(x.value, ast.Call)):
+                        a1, b1 = seg(lines, s1)
+                        a2, b2 = seg(lines, s2)
+                        out.append({"file": rel, "kind": "SWAP_ADJ", "line": s1.lineno, "fn": func_of(s1), "old": (text[a1:b1] + " ;; " + text[a2:b2])[:120], "new": "swapped",
+                                    "a": a1, "b": b2, "repl": text[a2:b2] + text[b1:a2] + text[a1:b1], "note": ""})
         if isinstance(n, ast.Raise) and not in_skipped(parents.get(id(n))):
             add("DEL_RAISE", n, "pass")
     return text, out
